@@ -9,24 +9,29 @@ package main
 import (
 	"bytes"
 	"context"
+	"crypto/sha256"
 	"database/sql"
 	"errors"
 	"fmt"
 	"math/rand/v2"
+	"os"
 	"path/filepath"
 	"strings"
 	"sync/atomic"
 	"time"
 
+	_ "github.com/mattn/go-sqlite3"
 	"github.com/transparency-dev/witness/internal/persistence"
 	"github.com/transparency-dev/witness/internal/persistence/inmemory"
 	psql "github.com/transparency-dev/witness/internal/persistence/sql"
+	"github.com/transparency-dev/witness/internal/verif/kit/crash"
 	"github.com/transparency-dev/witness/internal/verif/kit/ev"
 	"github.com/transparency-dev/witness/internal/verif/kit/gen"
 	"github.com/transparency-dev/witness/internal/verif/kit/refnote"
 	"github.com/transparency-dev/witness/internal/verif/kit/reftree"
 	"github.com/transparency-dev/witness/internal/verif/kit/seams"
 	"github.com/transparency-dev/witness/internal/verif/kit/wit"
+	"github.com/transparency-dev/witness/internal/witness"
 	"google.golang.org/grpc/codes"
 	"google.golang.org/grpc/status"
 )
@@ -201,8 +206,8 @@ func watchdog(f func()) bool {
 func main() {
 	run := ev.Start("C07", "fault_enumeration")
 	defer run.Finish()
-	run.Rule("single faults (exhaustive): {first use, growth, refresh, refused-stale, refused-bad-proof, first-use-shaped fork on a populated log} x every storage call position x every fault kind, at the persistence interface (over in-memory and over SQLite) and at the SQL driver (begin/query/exec/commit/rollback; failed-before and reported-failed-after variants; :memory: and file) - positions learned from a fault-free dry run of the same scenario; then PRNG-drawn multi-fault histories. After each faulted request: pool/handle quiescence, state read back with faults off, nil error => read returns exactly the returned bytes, refused scenarios leave the old checkpoint, then an honest next step from the committed state must be accepted. evaluations = faulted requests; nontrivial = distinct (level, scenario, operation, position, fault kind)")
-	run.Assume("injected faults stay inside the contract of the layer they impersonate (a failing driver Commit/Rollback really rolls back, as go-sqlite3 does); driver.ErrBadConn is not injected (database/sql retries it by design)", "process-level faults (ENOSPC/EIO from the kernel) are not part of this tier")
+	run.Rule("single faults (exhaustive): {first use, growth, refresh, refused-stale, refused-bad-proof, first-use-shaped fork on a populated log} x every storage call position x every fault kind, at the persistence interface (over in-memory and over SQLite) and at the SQL driver (begin/query/exec/commit/rollback; failed-before and reported-failed-after variants; :memory: and file) - positions learned from a fault-free dry run of the same scenario; then PRNG-drawn multi-fault histories; finally a process-level pass: a child process running the real Witness on file-backed SQLite has its N-th storage syscall (pwrite64/fsync/fdatasync/unlink/ftruncate) fail with ENOSPC or EIO, for every N of three scripts (five in thorough). After each faulted request: pool/handle quiescence, state read back with faults off, nil error => read returns exactly the returned bytes, refused scenarios leave the old checkpoint, then an honest next step from the committed state must be accepted. evaluations = faulted requests; nontrivial = distinct (level, scenario, operation, position, fault kind)")
+	run.Assume("injected faults stay inside the contract of the layer they impersonate (a failing driver Commit/Rollback really rolls back, as go-sqlite3 does); driver.ErrBadConn is not injected (database/sql retries it by design)", "process-level pass: one failing storage syscall (ENOSPC or EIO) per child run, injected by strace")
 	run.Floor("single_fault_plans", 150)
 	run.Floor("multi_fault_histories", 500)
 	run.Floor("tofu_attack_with_read_fault", 10)
@@ -444,6 +449,159 @@ func main() {
 		recover_(run, unit, b, what, sc)
 		run.Count("multi_fault_histories")
 		run.Distinct("nontrivial", fmt.Sprintf("%s/faults=%d", what, min(nf, 6)))
+	})
+	processLevel(run, dir)
+}
+
+// processLevel is the kernel-level pass: the C06 child (real Witness on file-backed SQLite,
+// production pool setting) runs a script while strace makes its N-th storage syscall fail with
+// ENOSPC or EIO, for every N. This exercises SQLite's and the driver's own error paths.
+func processLevel(run *ev.Run, dir string) {
+	if os.Getenv("VERIF_BIN_C06CHILD") == "" {
+		run.Inconclusive("c06child binary not provided")
+		return
+	}
+	run.Floor("errno_points", 60)
+	const inj = "pwrite64,fsync,fdatasync,unlink,unlinkat,ftruncate"
+	w := crash.NewWorld(run.Rand("world", 0))
+	scripts := w.Scripts()
+	if !run.Thorough() {
+		scripts = scripts[1:4] // growth, refresh, growth after a refused update
+	}
+	type pt struct {
+		sc    crash.Script
+		n     int
+		errno string
+	}
+	var pts []pt
+	for _, sc := range scripts {
+		db := filepath.Join(dir, "edry-"+sc.Name+".db")
+		tr := filepath.Join(dir, "etrace-"+sc.Name)
+		if _, _, err, out := w.Child(dir, db, sc.Ups, -1, "", false, []string{"strace", "-f", "-o", tr, "-e", "trace=" + inj}); err != nil {
+			run.Inconclusive("traced dry run failed: " + err.Error() + string(out))
+			return
+		}
+		tb, _ := os.ReadFile(tr)
+		per := map[string]int{}
+		for _, ln := range strings.Split(string(tb), "\n") {
+			f := strings.Fields(ln)
+			if len(f) > 1 && strings.Contains(f[1], "(") {
+				per[f[0]]++
+			}
+		}
+		k := 0
+		for _, v := range per {
+			if v > k {
+				k = v
+			}
+		}
+		for n := 1; n <= k; n++ {
+			for _, e := range []string{"ENOSPC", "EIO"} {
+				pts = append(pts, pt{sc, n, e})
+			}
+		}
+	}
+	run.Units("errno", len(pts), 0, func(unit int64, _ *rand.Rand) {
+		p := pts[unit]
+		db := filepath.Join(dir, fmt.Sprintf("e-%d.db", unit))
+		tr := filepath.Join(dir, fmt.Sprintf("e-%d.trace", unit))
+		ackp, _, err, out := w.Child(dir, db, p.sc.Ups, -1, "", false, []string{"strace", "-f", "-o", tr, "-e", "trace=" + inj, "-e", fmt.Sprintf("inject=%s:error=%s:when=%d", inj, p.errno, p.n)})
+		a := crash.ReadAcks(ackp)
+		tb, _ := os.ReadFile(tr)
+		hit := ""
+		for _, ln := range strings.Split(string(tb), "\n") {
+			if strings.Contains(ln, "(INJECTED)") {
+				hit = ln
+				if len(hit) > 110 {
+					hit = hit[:110]
+				}
+			}
+		}
+		what := fmt.Sprintf("process/%s/%s", p.sc.Name, p.errno)
+		detail := map[string]any{"script": p.sc.Name, "syscall_index": p.n, "errno": p.errno, "injected_into": hit, "acks": a.Order, "naks": len(a.Nak), "child_exit": fmt.Sprint(err), "child_out": string(out)}
+		if hit == "" {
+			run.Count("errno_points_not_reached")
+			return
+		}
+		run.Count("evaluations")
+		run.Count("errno_points")
+		run.Distinct("nontrivial", fmt.Sprintf("%s@%d", what, p.n))
+		if !a.Ready && strings.Contains(string(out), "witness.New:") {
+			// the fault hit table creation at start-up: refusing to start on a failing disk is not an update outcome
+			run.Count("errno_hit_startup")
+			return
+		}
+		if err != nil || !a.Done {
+			run.Violate("process_died_under_io_error;"+p.sc.Name, fmt.Sprintf("the witness process did not survive %s at storage syscall %d: %v", p.errno, p.n, err), unit, detail)
+			return
+		}
+		// reopen with the plain production driver (faults have stopped)
+		h, oerr := sql.Open("sqlite3", db)
+		if oerr != nil {
+			run.Inconclusive(oerr.Error())
+			return
+		}
+		defer h.Close()
+		h.SetMaxOpenConns(1)
+		kl, _ := wit.KnownLogs(w.U)
+		wt, werr := witness.New(witness.Opts{Persistence: psql.NewPersistence(h), Signers: w.Keys.Signers, KnownLogs: kl})
+		if werr != nil {
+			run.Violate("store_unusable_after_io_error;"+p.sc.Name, "the store cannot be reopened: "+werr.Error(), unit, detail)
+			return
+		}
+		for _, l := range w.U.Logs {
+			stored, rerr := wt.GetCheckpoint(l.ID)
+			if rerr != nil && status.Code(rerr) != codes.NotFound {
+				run.Violate("read_fails_after_io_error;"+p.sc.Name, "reading the latest checkpoint fails after the errors stopped: "+rerr.Error(), unit, detail)
+				return
+			}
+			lastAck, lastPos := "", -1
+			for i, u := range p.sc.Ups {
+				if hsh, ok := a.Ack[u.ID]; ok && u.LogID == l.ID {
+					lastAck, lastPos = hsh, i
+				}
+			}
+			sum := ""
+			if stored != nil {
+				sum = fmt.Sprintf("%x", sha256.Sum256(stored))
+			}
+			ok := sum == lastAck
+			if !ok && stored != nil {
+				// an update that committed but was reported as failed is the only other legal state
+				for i, u := range p.sc.Ups {
+					if i > lastPos && u.LogID == l.ID && !u.Refused {
+						if _, nak := a.Nak[u.ID]; nak && w.CosignedFormOf(l, stored, u.CP) {
+							ok = true
+							run.Count("committed_but_reported_failed")
+						}
+					}
+				}
+			}
+			if !ok {
+				d2 := map[string]any{"stored": string(stored), "last_ack_sha256": lastAck}
+				for k, v := range detail {
+					d2[k] = v
+				}
+				run.Violate("false_success_under_io_error;"+p.sc.Name, "after the I/O error the stored checkpoint is neither the last acknowledged one nor an update that was reported as failed", unit, d2)
+				continue
+			}
+			if stored == nil {
+				continue
+			}
+			n, _ := refnote.Parse(stored)
+			c, _ := refnote.ParseCheckpoint(n.Text)
+			if _, err := wt.Update(context.Background(), l.ID, c.Size, l.Honest(1, c.Size+3), l.Branches[1].Consistency(c.Size, c.Size+3)); err == nil {
+				run.Violate("fork_accepted_after_io_error;"+p.sc.Name, "after the I/O error a checkpoint inconsistent with the committed state was accepted", unit, detail)
+			}
+			if _, err := wt.Update(context.Background(), l.ID, c.Size, l.Honest(0, c.Size+2), l.Branches[0].Consistency(c.Size, c.Size+2)); err != nil {
+				run.Violate("no_progress_after_io_error;"+p.sc.Name, "after the errors stopped the honest next step from the committed state is refused: "+err.Error(), unit, detail)
+			}
+		}
+		if unit%37 == 0 {
+			run.Sample(detail)
+		}
+		os.Remove(db)
+		os.Remove(db + "-journal")
 	})
 }
 
